@@ -15,6 +15,7 @@ import (
 
 	"verif/checks/jt"
 	"verif/engine/core"
+	"verif/ref/poolpoison"
 	"verif/ref/tbin"
 )
 
@@ -213,6 +214,10 @@ func (s *scen) run() core.Result {
 		r.Class = "panic"
 		r.Add(fmt.Sprintf("t2j.Do|%s|%s|panic@%s:%s", s.op, s.trigger, pi.Site, core.PanicClass(pi.Val)), "msg %s\npanic: %.300s\n%.1500s", cliphex(msg, 200), pi.Val, pi.Stack)
 		return r
+	}
+	if cerr == nil && poolpoison.Aliased(out) {
+		r.Class = "violation"
+		r.Add(fmt.Sprintf("t2j.Do|%s|result-aliases-pooled-buffer", s.op), "trigger %s, options %s: the %d bytes returned by Do change when the buffers in the converters' pool are overwritten\nmsg %s", s.trigger, s.optName, len(out), cliphex(msg, 200))
 	}
 	if oc, det := s.judge(out, cerr, gb); oc != "" {
 		r.Class = "violation"
